@@ -426,6 +426,20 @@ fn behaviour(res: &ExecResult, ni: usize) -> Vec<String> {
 pub fn misuse_judge(scn: &Scenario, res: &ExecResult, _b: Option<&ExecResult>) -> Vec<Violation> {
     let mut out = Vec::new();
     let mk = |kind: &str, node: usize, round: i32, detail: String| Violation { prop: "C16", kind: kind.to_owned(), detail, round, node };
+    // advance_frame without new input is only a misuse when no input is pending: after a call
+    // that stalled, or that failed with NotSynchronized, the inputs added for it are still
+    // pending by design. If such a call succeeded the harness has not executed its requests, so
+    // nothing else in this run can be judged.
+    for nt in res.nodes.iter() {
+        for a in nt.actions.iter().filter(|a| a.action == Action::AdvanceWithoutInput && a.res == R_OK) {
+            let prev = nt.calls.iter().rev().find(|c| c.round < a.round && c.res != crate::world::R_NO_TICK && c.res != crate::world::R_STALLED);
+            let pending = prev.map(|c| c.n_adv == 0).unwrap_or(false);
+            if pending {
+                return Vec::new();
+            }
+            return vec![mk("misuse-wrong-result", 0, a.round, format!("advance_frame without any pending local input returned Ok ({}) in round {}", a.detail, a.round))];
+        }
+    }
     for (ni, nt) in res.nodes.iter().enumerate() {
         if let Some(m) = &nt.crashed {
             out.push(mk("misuse-panics", ni, 0, format!("a misuse call made session {ni} panic: {m}")));
@@ -541,7 +555,7 @@ fn misuse_part(rep: &mut Report) {
         crate::types::fnv(&mut h, s.name.as_bytes());
         out.nontrivial.insert(h);
     }
-    rep.absorb("misuse calls inserted at every round of valid runs (1+1, 2+1, +spectator, lockstep, during the handshake)", out, &["C16", "PANIC"], json!({"k": 0, "scenarios": n}));
+    rep.absorb("misuse calls inserted at every round of valid runs (1+1, 2+1, 1+2, +spectator, lockstep, during the handshake)", out, &["C16"], json!({"k": 0, "scenarios": n}));
 }
 
 fn misuse_judge_wrapper(scn: &Scenario, res: &ExecResult, b: Option<&ExecResult>) -> Vec<Violation> {
